@@ -1,140 +1,73 @@
 import ComposeVerif.Model.C01Reset
+import ComposeVerif.Lemmas.C01Dep
 /-!
-Helper lemmas for C01: alias expansion terminates on every arena whose alias / child edges are well-founded
-(`Ranked`): documents in which no alias points (directly or through other aliases) at a node enclosing it.
+Helper lemmas for C01: alias expansion (`resolveReset` after the repair of `hang@alias-self-merge`) terminates on
+EVERY arena: no node is nested more than twice on the recursion stack, so the stack is at most twice as long as
+the arena.
 -/
 namespace CV.C01.Reset
 
-/-- a rank that strictly decreases along child edges and alias edges -/
-def NodeOk (rk : Nat → Nat) (n : Nat) : Node → Prop
-  | .scalar _ => True
-  | .seq _ items => ∀ c ∈ items, rk c < rk n
-  | .map _ entries => ∀ e ∈ entries, rk e.2 < rk n
-  | .alias t => rk t < rk n
+theorem length_le_of_count_le (k : Nat) : ∀ (N : Nat) (l : List Nat),
+    (∀ x, l.count x ≤ k) → (∀ x ∈ l, x < N) → l.length ≤ k * N
+  | 0, l, _, hb => by
+    cases l with
+    | nil => simp
+    | cons a t => exact absurd (hb a (List.mem_cons_self ..)) (Nat.not_lt_zero _)
+  | N + 1, l, hc, hb => by
+    have hsplit := List.length_eq_countP_add_countP (fun x => x == N) (l := l)
+    have h1 : List.countP (fun x => x == N) l = l.count N := by
+      simp [List.count]
+    have h2 : List.countP (fun a => decide ¬((a == N) = true)) l = (l.filter (fun x => !(x == N))).length := by
+      rw [List.countP_eq_length_filter]
+      congr 1
+      apply List.filter_congr
+      intro x _
+      by_cases hx : x = N <;> simp [hx]
+    have ih := length_le_of_count_le k N (l.filter (fun x => !(x == N)))
+      (by
+        intro x
+        exact Nat.le_trans (List.Sublist.count_le x List.filter_sublist) (hc x))
+      (by
+        intro x hx
+        rw [List.mem_filter] at hx
+        have hlt := hb x hx.1
+        have hne : x ≠ N := by simpa using hx.2
+        omega)
+    have hcN := hc N
+    rw [Nat.mul_succ]
+    omega
 
-def Ranked (rk : Nat → Nat) (arena : List Node) : Prop :=
-  ∀ n node, arena[n]? = some node → NodeOk rk n node
+theorem length_setNode : ∀ (a : List Node) (n : Nat) (nd : Node), (setNode n nd a).length = a.length
+  | [], _, _ => by simp [setNode]
+  | h :: t, 0, nd => by simp [setNode]
+  | h :: t, n + 1, nd => by simp [setNode, length_setNode t n nd]
 
-theorem getElem?_setNode : ∀ (a : List Node) (n m : Nat) (nd : Node),
-    (setNode n nd a)[m]? = if m = n ∧ n < a.length then some nd else a[m]?
-  | [], n, m, nd => by simp [setNode]
-  | h :: t, 0, m, nd => by
-    cases m with
-    | zero => simp [setNode]
-    | succ k => simp [setNode]
-  | h :: t, n + 1, m, nd => by
-    cases m with
-    | zero => simp [setNode]
-    | succ k =>
-      simp only [setNode, List.getElem?_cons_succ, List.length_cons]
-      rw [getElem?_setNode t n k nd]
-      simp
+/-- the stack invariant: multiplicity ≤ 2, only valid indices -/
+def StackOk (N : Nat) (active : List Nat) : Prop :=
+  (∀ x, active.count x ≤ 2) ∧ (∀ x ∈ active, x < N)
 
-theorem Ranked.setNode {rk : Nat → Nat} {a : List Node} (h : Ranked rk a) (n : Nat) (nd : Node)
-    (hnd : NodeOk rk n nd) : Ranked rk (setNode n nd a) := by
-  intro m node hm
-  rw [getElem?_setNode] at hm
-  split at hm
-  · rename_i hc
-    cases hm
-    rw [hc.1]
-    exact hnd
-  · exact h m node hm
+theorem StackOk.length_le {N : Nat} {active : List Nat} (h : StackOk N active) : active.length ≤ 2 * N :=
+  length_le_of_count_le 2 N active h.1 h.2
 
-/-- what the recursive call must guarantee for the loops -/
-def Post (rk : Nat → Nat) (n : Nat) : Except Err (St × Option Nat) → Prop
+theorem StackOk.push {N : Nat} {active : List Nat} {n : Nat} (h : StackOk N active)
+    (hc : ¬ 2 ≤ active.count n) (hn : n < N) : StackOk N (n :: active) := by
+  refine ⟨?_, ?_⟩
+  · intro x
+    rw [List.count_cons]
+    by_cases hx : n = x
+    · subst hx; simp; omega
+    · have := h.1 x
+      simp [hx]
+      exact this
+  · intro x hx
+    rcases List.mem_cons.mp hx with rfl | h'
+    · exact hn
+    · exact h.2 x h'
+
+/-- what a call guarantees: it does not run out of fuel, and the arena keeps its length -/
+def PostN (N : Nat) : Except Err (St × Option Nat) → Prop
   | .error e => e ≠ .outOfFuel
-  | .ok (st', r) => Ranked rk st'.arena ∧ ∀ k, r = some k → rk k ≤ rk n
-
-theorem resolveItems_post (rk : Nat → Nat) (bound rkn : Nat)
-    (rec : St → Nat → P → Except Err (St × Option Nat))
-    (hrec : ∀ st c p, Ranked rk st.arena → rk c < bound → Post rk c (rec st c p)) (path : P) :
-    ∀ (items : List Nat) (st : St) (idx : Nat), Ranked rk st.arena →
-      (∀ c ∈ items, rk c < bound ∧ rk c < rkn) →
-      match resolveItems rec path st items idx with
-      | .error e => e ≠ .outOfFuel
-      | .ok (st', kept) => Ranked rk st'.arena ∧ ∀ k ∈ kept, rk k < rkn
-  | [], st, idx, hr, _ => by
-    simp only [resolveItems]
-    exact ⟨hr, by intro k hk; cases hk⟩
-  | c :: rest, st, idx, hr, hc => by
-    have hcc := hc c (List.mem_cons_self ..)
-    have h1 := hrec st c (path ++ [toString idx]) hr hcc.1
-    unfold resolveItems
-    cases hres : rec st c (path ++ [toString idx]) with
-    | error e => rw [hres] at h1; exact h1
-    | ok pr =>
-      obtain ⟨st1, r⟩ := pr
-      rw [hres] at h1
-      simp only [Post] at h1
-      have h2 := resolveItems_post rk bound rkn rec hrec path rest st1 (idx + 1) h1.1
-        (fun x hx => hc x (List.mem_cons_of_mem _ hx))
-      simp only
-      cases hres2 : resolveItems rec path st1 rest (idx + 1) with
-      | error e => rw [hres2] at h2; exact h2
-      | ok pr2 =>
-        obtain ⟨st2, kept⟩ := pr2
-        rw [hres2] at h2
-        simp only at h2 ⊢
-        refine ⟨h2.1, ?_⟩
-        intro k hk
-        cases r with
-        | none => exact h2.2 k hk
-        | some k0 =>
-          simp only [List.mem_cons] at hk
-          rcases hk with hk | hk
-          · subst hk
-            exact Nat.lt_of_le_of_lt (h1.2 k rfl) hcc.2
-          · exact h2.2 k hk
-
-theorem resolveEntries_post (rk : Nat → Nat) (bound rkn : Nat)
-    (rec : St → Nat → P → Except Err (St × Option Nat))
-    (hrec : ∀ st c p, Ranked rk st.arena → rk c < bound → Post rk c (rec st c p)) (path : P) :
-    ∀ (entries : List (String × Nat)) (st : St), Ranked rk st.arena →
-      (∀ e ∈ entries, rk e.2 < bound ∧ rk e.2 < rkn) →
-      match resolveEntries rec path st entries with
-      | .error e => e ≠ .outOfFuel
-      | .ok (st', kept) => Ranked rk st'.arena ∧ ∀ e ∈ kept, rk e.2 < rkn
-  | [], st, hr, _ => by
-    simp only [resolveEntries]
-    exact ⟨hr, by intro k hk; cases hk⟩
-  | (key, c) :: rest, st, hr, hc => by
-    have hcc := hc (key, c) (List.mem_cons_self ..)
-    have h1 := hrec st c (path ++ [key]) hr hcc.1
-    unfold resolveEntries
-    cases hres : rec st c (path ++ [key]) with
-    | error e => rw [hres] at h1; exact h1
-    | ok pr =>
-      obtain ⟨st1, r⟩ := pr
-      rw [hres] at h1
-      simp only [Post] at h1
-      have h2 := resolveEntries_post rk bound rkn rec hrec path rest st1 h1.1
-        (fun x hx => hc x (List.mem_cons_of_mem _ hx))
-      simp only
-      cases hres2 : resolveEntries rec path st1 rest with
-      | error e => rw [hres2] at h2; exact h2
-      | ok pr2 =>
-        obtain ⟨st2, kept⟩ := pr2
-        rw [hres2] at h2
-        simp only at h2 ⊢
-        refine ⟨h2.1, ?_⟩
-        intro e he
-        cases r with
-        | none => exact h2.2 e he
-        | some k0 =>
-          simp only [List.mem_cons] at he
-          rcases he with he | he
-          · subst he
-            exact Nat.lt_of_le_of_lt (h1.2 k0 rfl) hcc.2
-          · exact h2.2 e he
-
-theorem Post.mono {rk : Nat → Nat} {t n : Nat} {x : Except Err (St × Option Nat)} (h : Post rk t x) (hle : rk t ≤ rk n) :
-    Post rk n x := by
-  cases x with
-  | error e => exact h
-  | ok pr =>
-    obtain ⟨st', r⟩ := pr
-    exact ⟨h.1, fun k hk => Nat.le_trans (h.2 k hk) hle⟩
+  | .ok (st', _) => st'.arena.length = N
 
 theorem checkForCycle_spec (st : St) (t : Nat) (path : P) :
     checkForCycle st t path = .error .cycle ∨ ∃ st', checkForCycle st t path = .ok st' ∧ st'.arena = st.arena := by
@@ -144,77 +77,177 @@ theorem checkForCycle_spec (st : St) (t : Nat) (path : P) :
   · exact Or.inl rfl
   · exact Or.inr ⟨_, rfl, rfl⟩
 
-/-- on a ranked arena the recursion never runs out of fuel once the fuel exceeds the rank of the node,
-it keeps the arena ranked, and the node it returns is no higher than the one it was given -/
-theorem resolve_post (rk : Nat → Nat) : ∀ (fuel : Nat) (st : St) (n : Nat) (path : P),
-    Ranked rk st.arena → rk n < fuel → Post rk n (resolve fuel st n path)
-  | 0, _, _, _, _, hf => by omega
-  | fuel + 1, st, n, path, hr, hf => by
+theorem resolveItems_total (N : Nat) (rec : St → Nat → P → Except Err (St × Option Nat))
+    (hrec : ∀ st c p, st.arena.length = N → PostN N (rec st c p)) (path : P) :
+    ∀ (items : List Nat) (st : St) (idx : Nat), st.arena.length = N →
+      match resolveItems rec path st items idx with
+      | .error e => e ≠ .outOfFuel
+      | .ok (st', _) => st'.arena.length = N
+  | [], st, idx, hl => by simp only [resolveItems]; exact hl
+  | c :: rest, st, idx, hl => by
+    have h1 := hrec st c (path ++ [toString idx]) hl
+    unfold resolveItems
+    cases hres : rec st c (path ++ [toString idx]) with
+    | error e => rw [hres] at h1; exact h1
+    | ok pr =>
+      obtain ⟨st1, r⟩ := pr
+      rw [hres] at h1
+      simp only [PostN] at h1
+      have h2 := resolveItems_total N rec hrec path rest st1 (idx + 1) h1
+      simp only
+      cases hres2 : resolveItems rec path st1 rest (idx + 1) with
+      | error e => rw [hres2] at h2; exact h2
+      | ok pr2 =>
+        obtain ⟨st2, kept⟩ := pr2
+        rw [hres2] at h2
+        exact h2
+
+theorem resolveEntries_total (N : Nat) (rec : St → Nat → P → Except Err (St × Option Nat))
+    (hrec : ∀ st c p, st.arena.length = N → PostN N (rec st c p)) (path : P) :
+    ∀ (entries : List (String × Nat)) (st : St), st.arena.length = N →
+      match resolveEntries rec path st entries with
+      | .error e => e ≠ .outOfFuel
+      | .ok (st', _) => st'.arena.length = N
+  | [], st, hl => by simp only [resolveEntries]; exact hl
+  | (key, c) :: rest, st, hl => by
+    have h1 := hrec st c (path ++ [key]) hl
+    unfold resolveEntries
+    cases hres : rec st c (path ++ [key]) with
+    | error e => rw [hres] at h1; exact h1
+    | ok pr =>
+      obtain ⟨st1, r⟩ := pr
+      rw [hres] at h1
+      simp only [PostN] at h1
+      have h2 := resolveEntries_total N rec hrec path rest st1 h1
+      simp only
+      cases hres2 : resolveEntries rec path st1 rest with
+      | error e => rw [hres2] at h2; exact h2
+      | ok pr2 =>
+        obtain ⟨st2, kept⟩ := pr2
+        rw [hres2] at h2
+        exact h2
+
+/-- **alias expansion terminates on every arena**: once the fuel exceeds the room left on a stack that can hold
+each node at most twice, `resolve` never answers `outOfFuel` -/
+theorem resolve_total (N : Nat) : ∀ (fuel : Nat) (st : St) (active : List Nat) (n : Nat) (path : P),
+    st.arena.length = N → StackOk N active → 2 * N - active.length < fuel →
+    PostN N (resolve fuel st active n path)
+  | 0, _, _, _, _, _, _, hf => by omega
+  | fuel + 1, st, active, n, path, hl, hs, hf => by
     unfold resolve
     simp only
-    cases hn : st.arena[n]? with
-    | none => simp [Post]
-    | some node =>
-      have hok := hr n node hn
-      cases node with
-      | alias t =>
-        simp only
-        simp only [NodeOk] at hok
-        rcases checkForCycle_spec st t (normPath path) with hck | ⟨st', hck, harena⟩
-        · rw [hck]; simp [Post]
-        · rw [hck]
+    by_cases hc : 2 ≤ active.count n
+    · simp only [hc, ↓reduceIte, PostN]
+      intro e; cases e
+    · simp only [hc, ↓reduceIte]
+      cases hn : st.arena[n]? with
+      | none => simp [PostN]
+      | some node =>
+        have hnN : n < N := by
+          have := (List.getElem?_eq_some_iff.mp hn).1
+          omega
+        have hs' := hs.push hc hnN
+        have hlen := hs'.length_le
+        simp only [List.length_cons] at hlen
+        have hf' : 2 * N - (n :: active).length < fuel := by simp only [List.length_cons]; omega
+        have ih : ∀ st' c p, st'.arena.length = N → PostN N (resolve fuel st' (n :: active) c p) :=
+          fun st' c p hl' => resolve_total N fuel st' (n :: active) c p hl' hs' hf'
+        cases node with
+        | alias t =>
           simp only
-          have ih := resolve_post rk fuel st' t (normPath path) (harena ▸ hr) (by omega)
-          exact ih.mono (Nat.le_of_lt hok)
-      | scalar tag =>
-        simp only [Node.tag]
-        by_cases h1 : tag = "!reset"
-        · simp only [h1, ↓reduceIte, Post]
-          exact ⟨hr, by intro k hk; cases hk⟩
-        · by_cases h2 : tag = "!override"
-          · simp only [h1, h2, ↓reduceIte, Post]
-            exact ⟨hr, by intro k hk; cases hk; exact Nat.le_refl _⟩
-          · simp only [h1, h2, ↓reduceIte, Post]
-            exact ⟨hr, by intro k hk; cases hk; exact Nat.le_refl _⟩
-      | seq tag items =>
-        simp only [Node.tag]
-        by_cases h1 : tag = "!reset"
-        · simp only [h1, ↓reduceIte, Post]
-          exact ⟨hr, by intro k hk; cases hk⟩
-        · by_cases h2 : tag = "!override"
-          · simp only [h1, h2, ↓reduceIte, Post]
-            exact ⟨hr, by intro k hk; cases hk; exact Nat.le_refl _⟩
-          · simp only [h1, h2, ↓reduceIte]
-            simp only [NodeOk] at hok
-            have hl := resolveItems_post rk fuel (rk n) (resolve fuel) (fun st c p h1 h2 => resolve_post rk fuel st c p h1 h2)
-              (normPath path) items st 0 hr (fun c hc => ⟨by have := hok c hc; omega, hok c hc⟩)
-            revert hl
-            cases resolveItems (resolve fuel) (normPath path) st items 0 with
-            | error e => exact fun h => h
-            | ok pr =>
-              obtain ⟨st', kept⟩ := pr
-              simp only [Post]
-              intro hl
-              exact ⟨hl.1.setNode n _ (by simpa [NodeOk] using hl.2), by intro k hk; cases hk; exact Nat.le_refl _⟩
-      | map tag entries =>
-        simp only [Node.tag]
-        by_cases h1 : tag = "!reset"
-        · simp only [h1, ↓reduceIte, Post]
-          exact ⟨hr, by intro k hk; cases hk⟩
-        · by_cases h2 : tag = "!override"
-          · simp only [h1, h2, ↓reduceIte, Post]
-            exact ⟨hr, by intro k hk; cases hk; exact Nat.le_refl _⟩
-          · simp only [h1, h2, ↓reduceIte]
-            simp only [NodeOk] at hok
-            have hl := resolveEntries_post rk fuel (rk n) (resolve fuel) (fun st c p h1 h2 => resolve_post rk fuel st c p h1 h2)
-              (normPath path) entries st hr (fun e he => ⟨by have := hok e he; omega, hok e he⟩)
-            revert hl
-            cases resolveEntries (resolve fuel) (normPath path) st entries with
-            | error e => exact fun h => h
-            | ok pr =>
-              obtain ⟨st', kept⟩ := pr
-              simp only [Post]
-              intro hl
-              exact ⟨hl.1.setNode n _ (by simpa [NodeOk] using hl.2), by intro k hk; cases hk; exact Nat.le_refl _⟩
+          rcases checkForCycle_spec st t (normPath path) with hck | ⟨st', hck, harena⟩
+          · rw [hck]; simp [PostN]
+          · rw [hck]
+            simp only
+            exact ih st' t (normPath path) (by rw [harena]; exact hl)
+        | scalar tag =>
+          simp only [Node.tag]
+          by_cases h1 : tag = "!reset"
+          · simp only [h1, ↓reduceIte, PostN]; exact hl
+          · by_cases h2 : tag = "!override"
+            · simp only [h2, ↓reduceIte, PostN]; exact hl
+            · simp only [h1, h2, ↓reduceIte, PostN]; exact hl
+        | seq tag items =>
+          simp only [Node.tag]
+          by_cases h1 : tag = "!reset"
+          · simp only [h1, ↓reduceIte, PostN]; exact hl
+          · by_cases h2 : tag = "!override"
+            · simp only [h2, ↓reduceIte, PostN]; exact hl
+            · simp only [h1, h2, ↓reduceIte]
+              have hloop := resolveItems_total N _ ih (normPath path) items st 0 hl
+              revert hloop
+              cases resolveItems (fun s c p => resolve fuel s (n :: active) c p) (normPath path) st items 0 with
+              | error e => exact fun h => h
+              | ok pr =>
+                obtain ⟨st', kept⟩ := pr
+                simp only [PostN]
+                intro h
+                rw [length_setNode]; exact h
+        | map tag entries =>
+          simp only [Node.tag]
+          by_cases h1 : tag = "!reset"
+          · simp only [h1, ↓reduceIte, PostN]; exact hl
+          · by_cases h2 : tag = "!override"
+            · simp only [h2, ↓reduceIte, PostN]; exact hl
+            · simp only [h1, h2, ↓reduceIte]
+              have hloop := resolveEntries_total N _ ih (normPath path) entries st hl
+              revert hloop
+              cases resolveEntries (fun s c p => resolve fuel s (n :: active) c p) (normPath path) st entries with
+              | error e => exact fun h => h
+              | ok pr =>
+                obtain ⟨st', kept⟩ := pr
+                simp only [PostN]
+                intro h
+                rw [length_setNode]; exact h
+
+/-! ## `checkAcyclic` -/
+
+theorem children_map_mem (f : Nat → List Nat) : ∀ (l : List Nat) (v c : Nat),
+    c ∈ Dep.children (l.map fun i => (i, f i)) v → c ∈ f v
+  | [], _, _, h => by simp [Dep.children] at h
+  | i :: rest, v, c, h => by
+    simp only [List.map_cons, Dep.children] at h
+    split at h
+    · rename_i hv; subst hv; exact h
+    · exact children_map_mem f rest v c h
+
+theorem graphOf_verts (arena : List Node) : Dep.verts (graphOf arena) = List.range arena.length := by
+  simp [Dep.verts, graphOf, List.map_map, Function.comp_def]
+
+theorem graphOf_closed (arena : List Node) : Dep.Closed (graphOf arena) := by
+  intro v c hc
+  rw [graphOf_verts]
+  have := children_map_mem _ _ v c hc
+  rw [List.mem_filter] at this
+  simpa using this.2
+
+/-- the tree check returns on every arena -/
+theorem checkAcyclic_total (arena : List Node) (fuel root : Nat) (hf : arena.length < fuel) :
+    checkAcyclic arena fuel root ≠ .outOfFuel := by
+  unfold checkAcyclic
+  by_cases hr : root < arena.length
+  · apply Dep.searchCycle_ne_fuel (graphOf arena) (graphOf_closed arena) fuel [root] root (by simp)
+    · intro x hx
+      simp only [List.mem_singleton] at hx
+      subst hx
+      rw [graphOf_verts]; simpa using hr
+    · rw [graphOf_verts]; simp only [List.length_range, List.length_singleton]; omega
+  · -- a root outside the arena has no children
+    cases fuel with
+    | zero => omega
+    | succ f =>
+      have hch : Dep.children (graphOf arena) root = [] := by
+        cases hcs : Dep.children (graphOf arena) root with
+        | nil => rfl
+        | cons c cs =>
+          exfalso
+          have hmem : c ∈ Dep.children (graphOf arena) root := by rw [hcs]; exact List.mem_cons_self ..
+          have h2 := children_map_mem _ _ root c hmem
+          rw [List.mem_filter] at h2
+          have : arena[root]? = none := List.getElem?_eq_none (by omega)
+          simp [this] at h2
+      unfold Dep.searchCycle
+      rw [hch]
+      simp [Dep.searchChildren]
 
 end CV.C01.Reset
